@@ -44,7 +44,7 @@ P = 'C09'
 BUDGETS = {'C09': (75, 1200, 40)}
 LEVELS = {'C09': 'exploration'}
 ALLOWED = (ServerError, ProtocolError, SSLVerificationError, NetworkError)
-PROBES = {'C09': ['layer.http', 'layer.web', 'layer.robots', 'layer.ftp', 'layer.crawl', 'robots_redirected_to_other_origin', 'crawl_ftp', 'ftp_symlinks', 'continue_with_partial_files', 'long_line', 'raw_random', 'truncated', 'odd_location',
+PROBES = {'C09': ['layer.http', 'layer.web', 'layer.robots', 'layer.ftp', 'layer.crawl', 'robots_redirected_to_other_origin', 'crawl_with_warc', 'crawl_ftp', 'ftp_symlinks', 'continue_with_partial_files', 'long_line', 'raw_random', 'truncated', 'odd_location',
                   'odd_cookie', 'cookie_flood', 'bad_compression', 'ftp_reply_mutated', 'ftp_listing_mutated', 'hostile_html', 'hostile_css', 'hostile_js',
                   'hostile_sitemap', 'hostile_robots', 'real_file_writer', 'per_url_error_seen', 'healthy_fetched_after_hostile', 'reset', 'stall']}
 INFO = {'C09': {
@@ -505,6 +505,8 @@ def layer_crawl(tape, r, tier):
                     ftp_urls.append('ftp://ftp.test/')
                 else:
                     ftp_urls.append('ftp://ftp.test/nosuch%d.bin' % tape.draw(3, 'crawl.ftp.nosuch'))
+            if tape.chance(1, 4, 'crawl.ftp.refused'):
+                ftp_urls.append('ftp://ftp.test:2121/nobody-listens.txt')        # connection refused
             for _ in range(tape.between(1, 2, 'crawl.ftp.nfaults')):
                 kind = tape.choice(('rst', 'fin', 'data_rst', 'reply', 'reply', 'stall'), 'crawl.ftp.fault')
                 at = tape.draw(14, 'crawl.ftp.at')
@@ -528,11 +530,16 @@ def layer_crawl(tape, r, tier):
         dbpath = os.path.join(sandbox, 'db.sqlite')
         if ftp_symlinks:
             extra = extra + ['--retr-symlinks=off']
+        with_warc = tape.chance(1, 3, 'crawl.warc')
+        if with_warc:
+            # everything is also archived: the recorder listens to every session, the failing ones included
+            extra = extra + ['--warc-file', os.path.join(sandbox, 'hostile-archive'), '--warc-tempdir', sandbox] + (['--no-warc-compression'] if tape.chance(1, 2, 'crawl.warc.plain') else [])
+            r.probes['crawl_with_warc'] += 1
         argv = crawl.argv_for(opts, [s.url for s in starts] + ftp_urls, dbpath, extra=extra)
         if tape.chance(1, 2, 'real_files'):
             argv.remove('--delete-after')          # default file writer: documents are saved under the sandbox (cwd)
             r.probes['real_file_writer'] += 1
-            if tape.chance(1, 3, 'continue'):
+            if not with_warc and tape.chance(1, 3, 'continue'):        # (wpull refuses --continue together with WARC output)
                 # --continue with files left by an earlier run: the server is free to ignore the Range request (200), to
                 # answer 416, or to send a 206 that does not fit
                 argv.append('--continue')
